@@ -126,30 +126,30 @@ Qed.
 Print Assumptions C09_leaves_exact_reachable.
 
 (* NAMES. The name after flatten of every instance below the top (path c :: y :: p, leaf first) is the
-   value the code computes, [pname]: prefix of the enclosing instance, "/", own name - where an EMPTY
-   prefix (child of the top definition, or enclosing instances all named "") means "keep the name". *)
+   value the code computes, [fname]: a child of the top definition keeps its name (or stays unnamed);
+   anything further down is called  prefix + "/" + own name,  the prefix being the flat name of the
+   enclosing instance ([pname]); a missing name counts as the empty string in both places. *)
 Theorem C09_name_as_computed : forall fuel x n x' t topd c y p,
   UF (st x) -> Uniquified (st x) t -> top (st x) n = Some t -> iref (st x) t = Some topd ->
   flatten fuel x n = (x', None) ->
-  is_rpath (st x) t (c :: y :: p) -> get_str (st x') c str_NAME = pname (st x) (c :: y :: p).
+  is_rpath (st x) t (c :: y :: p) -> get_str (st x') c str_NAME = fname (st x) (c :: y :: p).
 Proof. intros fuel x n x' t topd c y p U Hu Ht Hr E. apply (flatten_name_code fuel x n x' t topd U Hu Ht Hr E). Qed.
 Print Assumptions C09_name_as_computed.
 
-(* ... which is the slash-joined list of the names along the path, top-most first, whenever no
-   hierarchical instance on the path is named "" ([onames] = those names, None if one is missing) *)
+(* ... which is the slash-joined list of the names along the path, top-most first, whatever those names
+   are - the empty string included ([onames] = those names, None if one is missing) *)
 Theorem C09_name_is_joined_path : forall fuel x n x' t topd c y p l,
   UF (st x) -> Uniquified (st x) t -> top (st x) n = Some t -> iref (st x) t = Some topd ->
   flatten fuel x n = (x', None) ->
   is_rpath (st x) t (c :: y :: p) -> onames (st x) (c :: y :: p) = Some l ->
-  Forall (fun a : str => a <> nil) (removelast l) ->
   get_str (st x') c str_NAME = Some (join_slash l).
 Proof. intros fuel x n x' t topd c y p l U Hu Ht Hr E. apply (flatten_name_joined fuel x n x' t topd U Hu Ht Hr E). Qed.
 Print Assumptions C09_name_is_joined_path.
 
 (* unnamed instances, as the code treats them: a child of the top definition without a name stays
-   without one; anywhere else an instance that came up under a non-empty prefix had a name, and every
-   enclosing instance has a flat name (otherwise [None + "/"] / ["a/" + None] raise TypeError and the
-   call does not complete) *)
+   without one; anywhere else a missing name on the path counts as the empty string ([enames] = the
+   names along the path read that way), so every instance further down gets a flat name and the call
+   does not stop over a missing name *)
 Theorem C09_unnamed_top_child_stays : forall fuel x n x' t topd c,
   UF (st x) -> Uniquified (st x) t -> top (st x) n = Some t -> iref (st x) t = Some topd ->
   flatten fuel x n = (x', None) ->
@@ -157,13 +157,13 @@ Theorem C09_unnamed_top_child_stays : forall fuel x n x' t topd c,
 Proof. intros fuel x n x' t topd c U Hu Ht Hr E. apply (flatten_top_child_name fuel x n x' t topd U Hu Ht Hr E). Qed.
 Print Assumptions C09_unnamed_top_child_stays.
 
-Theorem C09_named_below_top_level : forall fuel x n x' t topd c y p,
+Theorem C09_missing_name_counts_as_empty : forall fuel x n x' t topd c y z p,
   UF (st x) -> Uniquified (st x) t -> top (st x) n = Some t -> iref (st x) t = Some topd ->
   flatten fuel x n = (x', None) ->
-  is_rpath (st x) t (c :: y :: p) ->
-  exists a, pname (st x) (y :: p) = Some a /\ (a <> nil -> get_str (st x) c str_NAME <> None).
-Proof. intros fuel x n x' t topd c y p U Hu Ht Hr E. apply (flatten_named_below fuel x n x' t topd U Hu Ht Hr E). Qed.
-Print Assumptions C09_named_below_top_level.
+  is_rpath (st x) t (c :: y :: z :: p) ->
+  get_str (st x') c str_NAME = Some (join_slash (enames (st x) (c :: y :: z :: p))).
+Proof. intros fuel x n x' t topd c y z p U Hu Ht Hr E. apply (flatten_name_missing_as_empty fuel x n x' t topd U Hu Ht Hr E). Qed.
+Print Assumptions C09_missing_name_counts_as_empty.
 
 (* data: on every object every entry other than the name, EDIF.identifier and the namespace tag '.NS'
    (re-set by add_child/add_cable to the tag of the top definition) is unchanged *)
@@ -220,9 +220,18 @@ Theorem C09_cable_names : forall fuel x n x' t topd y z p d cb,
   flatten fuel x n = (x', None) ->
   is_rpath (st x) t (y :: z :: p) -> iref (st x) y = Some d -> is_leaf_def (st x) d = false ->
   par (st x) RCables cb = Some d ->
-  exists a, pname (st x) (y :: z :: p) = Some a /\ get_str (st x') cb str_NAME = joino a (get_str (st x) cb str_NAME).
+  get_str (st x') cb str_NAME = Some (oe (fname (st x) (y :: z :: p)) ++ str_slash ++ oe (get_str (st x) cb str_NAME)).
 Proof. intros fuel x n x' t topd y z p d cb U Hu Ht Hr E. apply (flatten_cable_name fuel x n x' t topd U Hu Ht Hr E). Qed.
 Print Assumptions C09_cable_names.
+
+Theorem C09_cable_name_is_joined_path : forall fuel x n x' t topd y z p d cb l nm,
+  UF (st x) -> Uniquified (st x) t -> top (st x) n = Some t -> iref (st x) t = Some topd ->
+  flatten fuel x n = (x', None) ->
+  is_rpath (st x) t (y :: z :: p) -> iref (st x) y = Some d -> is_leaf_def (st x) d = false ->
+  par (st x) RCables cb = Some d -> onames (st x) (y :: z :: p) = Some l -> get_str (st x) cb str_NAME = Some nm ->
+  get_str (st x') cb str_NAME = Some (join_slash (l ++ nm :: nil)).
+Proof. intros fuel x n x' t topd y z p d cb l nm U Hu Ht Hr E. apply (flatten_cable_name_joined fuel x n x' t topd U Hu Ht Hr E). Qed.
+Print Assumptions C09_cable_name_is_joined_path.
 
 (* a 3-level design with two leaves under different branches:
      T = { a : M1, b : M2 }   M1 = { u : L, cable c1 }   M2 = { m : M3 }   M3 = { v : L, cable c3 }
@@ -254,7 +263,7 @@ Example C09_three_levels :
   kids s' RChildren 15 = (12 :: 6 :: nil) /\ kids s' RCables 15 = (23 :: 13 :: 7 :: nil) /\
   get_str s' 12 str_NAME = c09_nm "a/u" /\ get_str s' 6 str_NAME = c09_nm "b/m/v" /\
   get_str s' 13 str_NAME = c09_nm "a/c1" /\ get_str s' 7 str_NAME = c09_nm "b/m/c3" /\
-  pname s (6 :: 10 :: 17 :: 18 :: nil) = c09_nm "b/m/v" /\
+  fname s (6 :: 10 :: 17 :: 18 :: nil) = c09_nm "b/m/v" /\
   onames s (6 :: 10 :: 17 :: 18 :: nil) = Some (s2l "b" :: s2l "m" :: s2l "v" :: nil) /\
   par s' RWires 8 = Some 7 /\ par s' RWires 14 = Some 13.
 Proof. vm_compute. repeat split. Qed.
@@ -418,17 +427,24 @@ Proof.
   exact (proj1 (C09_connectivity_holds 50 x 0 x' 18 15 (POut 12 4) (PIn 22) 14 24 _ _ U Hu Htop Ht Hc Hcab E3 Ep Eq Wp Wq O1 O2) Hsame).
 Qed.
 
-(* The clause "named by the slash-joined instance names along that path" read literally - for every
-   path whose instances all have names - is false of the code: flatten tests [add_to_name != ""] to
-   decide whether there is an enclosing instance, so below a hierarchical instance whose name is the
-   empty string the leaf keeps its own name ("v" instead of "/v"). Witness: T = { "" : M }, M = { v : L };
-   replayed on the implementation (see the report; flatten gives ['v']). *)
+(* The clause "named by the slash-joined instance names along that path" read literally: for every path
+   whose instances all have names, from the empty store through any editing history. flatten hands down
+   None for "no enclosing instance" and the hierarchical name otherwise, so an instance called "" is a
+   path component like any other ("/v" below it). *)
 Definition C09_names_literal : Prop := forall ops u f fuel n t topd x' c y p l,
   let s := run ops init in
   Uniquified s t -> top s n = Some t -> iref s t = Some topd -> flatten fuel (mkX s u f) n = (x', None) ->
   is_rpath s t (c :: y :: p) -> onames s (c :: y :: p) = Some l ->
   get_str (st x') c str_NAME = Some (join_slash l).
 
+Theorem C09_names_literal_holds : C09_names_literal.
+Proof.
+  intros ops u f fuel n t topd x' c y p l s Hu Ht Hr E Hp Hl.
+  apply (flatten_name_joined fuel (mkX s u f) n x' t topd (reachable_uf ops) Hu Ht Hr E c y p l Hp Hl).
+Qed.
+Print Assumptions C09_names_literal_holds.
+
+(* T = { "" : M }, M = { v : L }: the leaf comes up as "/v" *)
 Definition c09_ops_empty : list op :=
   (ONew KNetlist None nil :: OCreate RLibs 0 None nil 0 None ::
    OCreate RDefs 1 (c09_nm "L") nil 0 None ::
@@ -436,23 +452,56 @@ Definition c09_ops_empty : list op :=
    OCreate RDefs 1 (c09_nm "T") nil 0 None :: OCreate RChildren 5 (c09_nm "") nil 0 (Some 3) ::
    OSetTop 0 (TopDef 5) :: nil)%string.
 
-Theorem C09_names_literal_refuted : ~ C09_names_literal.
-Proof.
-  intro H.
-  pose (s := run c09_ops_empty init).
-  assert (Hu : Uniquified s 7).
-  { apply uniquified_b_sound; [apply (inv_a _ (proj1 (reachable_uf c09_ops_empty)))|vm_compute; reflexivity]. }
-  assert (Hp : is_rpath s 7 (4 :: 6 :: 7 :: nil)) by (repeat (apply rp_child; [|vm_compute; tauto]); apply rp_top).
-  specialize (H c09_ops_empty 0 0 50 0 7 5 (fst (flatten 50 (mkX s 0 0) 0)) 4 6 (7 :: nil)
-                (s2l "" :: s2l "v" :: nil)%string Hu).
-  cbv zeta in H. fold s in H.
-  assert (E1 : top s 0 = Some 7) by (vm_compute; reflexivity).
-  assert (E2 : iref s 7 = Some 5) by (vm_compute; reflexivity).
-  assert (E3 : flatten 50 (mkX s 0 0) 0 = (fst (flatten 50 (mkX s 0 0) 0), None)).
-  { assert (E : snd (flatten 50 (mkX s 0 0) 0) = None) by (vm_compute; reflexivity).
-    destruct (flatten 50 (mkX s 0 0) 0) as [a b]. cbn in E. subst b. reflexivity. }
-  assert (E4 : onames s (4 :: 6 :: 7 :: nil) = Some (s2l "" :: s2l "v" :: nil)%string) by (vm_compute; reflexivity).
-  specialize (H E1 E2 E3 Hp E4).
-  vm_compute in H. discriminate H.
-Qed.
-Print Assumptions C09_names_literal_refuted.
+Example C09_empty_name_is_a_path_component :
+  let s := run c09_ops_empty init in
+  let r := flatten 50 (mkX s 0 0) 0 in
+  let s' := st (fst r) in
+  top s 0 = Some 7 /\ iref s 7 = Some 5 /\ uniquified_b s 7 = true /\ snd r = None /\
+  onames s (4 :: 6 :: 7 :: nil) = Some (s2l "" :: s2l "v" :: nil)%string /\
+  kids s' RChildren 5 = (4 :: nil) /\ get_str s' 4 str_NAME = c09_nm "/v".
+Proof. vm_compute. repeat split. Qed.
+
+(* T = { "" : M, v : L }, M = { v : L, cable c }: the two leaf paths get the two names "v" and "/v", the
+   call completes (it used to stop half-way on the clash of "v" with "v") *)
+Definition c09_ops_empty_sibling : list op :=
+  (ONew KNetlist None nil :: OCreate RLibs 0 None nil 0 None ::
+   OCreate RDefs 1 (c09_nm "L") nil 0 None ::
+   OCreate RDefs 1 (c09_nm "M") nil 0 None :: OCreate RChildren 3 (c09_nm "v") nil 0 (Some 2) ::
+   OCreate RCables 3 (c09_nm "c") nil 1 None ::
+   OCreate RDefs 1 (c09_nm "T") nil 0 None :: OCreate RChildren 7 (c09_nm "") nil 0 (Some 3) ::
+   OCreate RChildren 7 (c09_nm "v") nil 0 (Some 2) ::
+   OSetTop 0 (TopDef 7) :: nil)%string.
+
+Example C09_empty_name_no_clash :
+  let s := run c09_ops_empty_sibling init in
+  let r := flatten 50 (mkX s 0 0) 0 in
+  let s' := st (fst r) in
+  top s 0 = Some 10 /\ iref s 10 = Some 7 /\ uniquified_b s 10 = true /\ snd r = None /\
+  kids s RChildren 7 = (8 :: 9 :: nil) /\ kids s' RChildren 7 = (9 :: 4 :: nil) /\
+  get_str s' 9 str_NAME = c09_nm "v" /\ get_str s' 4 str_NAME = c09_nm "/v" /\
+  kids s' RCables 7 = (5 :: nil) /\ get_str s' 5 str_NAME = c09_nm "/c".
+Proof. vm_compute. repeat split. Qed.
+
+(* the same design with the hierarchical instance left WITHOUT a name: the missing name counts as the
+   empty string, the call completes with the same flat names (it used to raise TypeError after the
+   cable had been taken out of M) *)
+Definition c09_ops_unnamed : list op :=
+  (ONew KNetlist None nil :: OCreate RLibs 0 None nil 0 None ::
+   OCreate RDefs 1 (c09_nm "L") nil 0 None ::
+   OCreate RDefs 1 (c09_nm "M") nil 0 None :: OCreate RChildren 3 (c09_nm "v") nil 0 (Some 2) ::
+   OCreate RCables 3 (c09_nm "c") nil 1 None ::
+   OCreate RDefs 1 (c09_nm "T") nil 0 None :: OCreate RChildren 7 None nil 0 (Some 3) ::
+   OCreate RChildren 7 (c09_nm "v") nil 0 (Some 2) ::
+   OSetTop 0 (TopDef 7) :: nil)%string.
+
+Example C09_unnamed_hierarchical_instance :
+  let s := run c09_ops_unnamed init in
+  let r := flatten 50 (mkX s 0 0) 0 in
+  let s' := st (fst r) in
+  top s 0 = Some 10 /\ iref s 10 = Some 7 /\ uniquified_b s 10 = true /\ snd r = None /\
+  get_str s 8 str_NAME = None /\ onames s (4 :: 8 :: 10 :: nil) = None /\
+  enames s (4 :: 8 :: 10 :: nil) = (s2l "" :: s2l "v" :: nil)%string /\
+  kids s' RChildren 7 = (9 :: 4 :: nil) /\
+  get_str s' 9 str_NAME = c09_nm "v" /\ get_str s' 4 str_NAME = c09_nm "/v" /\
+  kids s' RCables 7 = (5 :: nil) /\ get_str s' 5 str_NAME = c09_nm "/c".
+Proof. vm_compute. repeat split. Qed.
